@@ -1,5 +1,5 @@
 """property id -> check function"""
-from . import storecheck, followcheck, wirecheck, httpcheck, c06check, crashcheck, servecheck, c10check, c09check, c08check
+from . import storecheck, followcheck, wirecheck, httpcheck, c06check, crashcheck, servecheck, c10check, c09check, c08check, c20check
 
 REGISTRY = {}
 for p in ("C01", "C05", "C06", "C07", "C08", "C09", "C20"):
@@ -22,3 +22,4 @@ for p in ("C14", "C15", "C16", "C17", "C18", "C19"):
 
 REGISTRY["C09"] = c09check.run
 REGISTRY["C08"] = c08check.run
+REGISTRY["C20"] = c20check.run
